@@ -41,9 +41,13 @@ func genGroupCase(t *rapid.T, withID bool) groupCase {
 	var base hx.Table
 	filled := rapid.IntRange(0, 4).Draw(t, "filled") == 0
 	if filled {
-		n := rapid.IntRange(41, 6000).Draw(t, "n")
+		maxN, cards := 6000, []int{1, 2, 4, 5, 8, 9, 16, 17, 33, 65, 129, 1000, 5000}
+		if tier() == "thorough" {
+			maxN, cards = 40000, append(cards, 257, 513, 1025, 2049, 4097, 8193, 16385, 40000) // more growth steps of the table
+		}
+		n := rapid.IntRange(41, maxN).Draw(t, "n")
 		seed := hx.SplitMix(rapid.Uint64().Draw(t, "fill"))
-		card := rapid.SampledFrom([]int{1, 2, 4, 5, 8, 9, 16, 17, 33, 65, 129, 1000, 5000}).Draw(t, "card")
+		card := rapid.SampledFrom(cards).Draw(t, "card")
 		decl := []string{"c", "a", "b", "", "B", "ab"}
 		base = hx.Table{Cols: []hx.Col{
 			hx.FillCol(&seed, "i1", hx.KInt, n, card, nil),
